@@ -70,6 +70,9 @@ Lemma loop_carried_refuted : breaks_with current false [va] w_loopcarried 20 [2]
 Proof. by_computation. Qed.
 Lemma loop_prewritten_refuted : breaks_with current false [va] w_loopprew 20 [2]%Z.
 Proof. by_computation. Qed.
+(* fixed by 98267e1: statement about the discipline just before that commit *)
+Lemma comprehension_iterable_refuted : breaks_with before_98267e1 false [va] w_compiter 5 [2]%Z.
+Proof. by_computation. Qed.
 Lemma arg_maybe_unbound_refuted : breaks_with current false [va] w_argunbound 5 [0]%Z.
 Proof. by_computation. Qed.
 Lemma result_maybe_unbound_refuted : breaks_with current false [va] w_retunbound 5 [0]%Z.
@@ -80,7 +83,7 @@ Definition repaired (sw : switches) (glob : bool) (params : list var) (lc : loc)
 
 Definition only (r b k m a g : bool) : switches :=
   {| sw_restore := r; sw_balanced := b; sw_killnest := k; sw_readmaybe := m; sw_loopall := a; sw_globalargs := g;
-     sw_loopprew := false |}.
+     sw_loopprew := false; sw_compiter := false |}.
 
 (* each single repaired discipline satisfies the outlining hypotheses on the witness of its defect *)
 Lemma repairs_compute :
@@ -100,7 +103,8 @@ Lemma current_compute :
   /\ repaired current false [va] w_loopdepth = true
   /\ repaired current true [] w_module = true
   /\ repaired (sw_or current (only false false false true false false)) false [va; vb] w_readmaybe = true
-  /\ repaired (sw_or current (only false false false false true false)) false [va] w_loopcarried = true.
+  /\ repaired (sw_or current (only false false false false true false)) false [va] w_loopcarried = true
+  /\ repaired current false [va] w_compiter = true.
 Proof. vm_compute. repeat split; reflexivity. Qed.
 
 (* ------------------------------------------------------------------ non-vacuity *)
